@@ -1,0 +1,87 @@
+//go:build verif
+
+// Contracts for package groups, checked by /verif (ssovc). Comment-only file.
+package groups
+
+// ---- C17: the fill cache ------------------------------------------------------------------------------------
+// $fills: ghost counter — how many times this cache has run its fill function.
+//@ type FillCache
+//@   ghost field $fills int
+//@   guarded_by cache, inflight, refreshLoopGroups : mu
+//@   typeinv maps_made: this.cache != nil && this.inflight != nil && this.refreshLoopGroups != nil
+
+//@ func NewFillCache(fillFunc FillFunc, refreshTTL time.Duration) *FillCache
+//@   ensures [C17] starts_empty: result != nil && result.cache != nil && result.inflight != nil && result.refreshLoopGroups != nil && len(result.cache) == 0 && len(result.inflight) == 0 && len(result.refreshLoopGroups) == 0 && result.fillFunc == fillFunc
+
+// What the cache holds for the group at the moment the read lock is held.
+//@ func (c *FillCache) Get(group string) (MemberSet, bool)
+//@   ensures [C17] answers_for_this_group: result.1 == at(@RLock#1, (group in c.cache)) && (result.1 ==> result.0 == at(@RLock#1, c.cache[group]))
+
+// busy: at this call's first lock acquisition a fill for the group was in flight.
+//@ func (c *FillCache) Update(group string) bool
+//@   modifies everything
+//@   let busy = at(@Lock#1, (group in c.inflight))
+//@   let err = @fillFunc#1.1
+//@   preserves fillFunc: c.$fills
+//@   ghostat fillFunc#1: c.$fills = c.$fills + 1
+//@   sink [C17] one_fill_per_group_at_a_time: fillFunc requires $arg0 == group && !busy && at(@Unlock#2, (group in c.inflight)) && c.$fills == old(c.$fills)
+//@   ensures [C17] concurrent_fill_is_not_repeated: busy ==> !result && !called(@fillFunc#1) && c.$fills == old(c.$fills)
+//@   ensures [C17] fills_once: !busy ==> called(@fillFunc#1) && c.$fills == old(c.$fills) + 1
+//@   ensures [C17] success_replaces_the_list: !busy && err == nil ==> result && at(@Unlock#3, (group in c.cache) && c.cache[group] == @fillFunc#1.0)
+//@   ensures [C17] failure_keeps_the_previous_list: !busy && err != nil && err != ErrGroupNotFound ==> !result && at(@Unlock#3, (group in c.cache)) == at(@Lock#2, (group in c.cache)) && at(@Unlock#3, c.cache[group]) == at(@Lock#2, c.cache[group])
+//@   ensures [C17] missing_group_is_dropped: !busy && err == ErrGroupNotFound ==> !result && at(@Unlock#3, !(group in c.cache))
+//@   ensures [C17] other_groups_untouched: !busy ==> (forall k string :: k != group ==> at(@Unlock#3, (k in c.cache)) == at(@Lock#2, (k in c.cache)) && at(@Unlock#3, c.cache[k]) == at(@Lock#2, c.cache[k]))
+//@   ensures [C17] marker_cleared_for_the_next_fill: !busy ==> at(@Unlock#3, !(group in c.inflight))
+
+// running: at this call's lock acquisition a refresh loop for the group was registered.
+//@ func (c *FillCache) RefreshLoop(group string) bool
+//@   modifies everything
+//@   let running = at(@Lock#1, (group in c.refreshLoopGroups))
+//@   ensures [C17] one_refresh_loop_per_group: running ==> !result && spawned() == 0
+//@   ensures [C17] starts_exactly_one_loop: !running ==> result && spawned() == 1 && at(@Unlock#2, (group in c.refreshLoopGroups))
+//@   ensures [C17] other_loops_untouched: forall k string :: k != group ==> (running ==> at(@Unlock#1, (k in c.refreshLoopGroups)) == at(@Lock#1, (k in c.refreshLoopGroups))) && (!running ==> at(@Unlock#2, (k in c.refreshLoopGroups)) == at(@Lock#1, (k in c.refreshLoopGroups)))
+
+// The loop's goroutine: fills only its own group, and ends only when the cache is stopped (select case 0).
+//@ func (c *FillCache) RefreshLoop$1()
+//@   modifies everything
+//@   sink [C17] refreshes_its_own_group: Update requires $arg0 == c && $arg1 == group
+//@   ensures [C17] ends_only_when_stopped: selected() == 0
+//@   ensures [C17] fills_immediately: called(@Update#1)
+
+// Its deferred cleanup: unregisters exactly this group, under the lock.
+//@ func (c *FillCache) RefreshLoop$1$1()
+//@   modifies everything
+//@   ensures [C17] unregisters_only_its_group: at(@Unlock#1, !(group in c.refreshLoopGroups)) && (forall k string :: k != group ==> at(@Unlock#1, (k in c.refreshLoopGroups)) == at(@Lock#1, (k in c.refreshLoopGroups)))
+
+// ---- C17: the answer cache (LocalCache over a concurrent map) -------------------------------------------------
+// A found entry is one that was stored under the same key (provenance predicate lcStored, see spec/prelude.spec).
+//@ func (lc *LocalCache) get(key CacheKey) (CacheEntry, bool)
+//@   modifies nothing
+//@   ensures [C17] found_was_stored_under_this_key: result.1 ==> lcStored(lc.localCacheData, key.Email, key.AllowedGroups, arrof(result.0.ValidGroups), len(result.0.ValidGroups))
+//@   ensures [C17] looks_up_this_key: called(@Load#1) && arg(@Load#1, 0) == lc.localCacheData && typeis(arg(@Load#1, 1), "pkg/groups.CacheKey") && unbox(arg(@Load#1, 1), "pkg/groups.CacheKey").Email == key.Email && unbox(arg(@Load#1, 1), "pkg/groups.CacheKey").AllowedGroups == key.AllowedGroups
+
+//@ func (lc *LocalCache) Get(key CacheKey) (CacheEntry, bool)
+//@   modifies nothing
+//@   ensures [C17] found_was_stored_under_this_key: result.1 ==> lcStored(lc.localCacheData, key.Email, key.AllowedGroups, arrof(result.0.ValidGroups), len(result.0.ValidGroups))
+
+//@ func (lc *LocalCache) set(key CacheKey, data CacheEntry)
+//@   modifies nothing
+//@   let K = unbox($arg1, "pkg/groups.CacheKey")
+//@   let V = unbox($arg2, "pkg/groups.CacheEntry")
+//@   sink [C17] stores_this_entry_under_this_key: Store requires $arg0 == lc.localCacheData && typeis($arg1, "pkg/groups.CacheKey") && typeis($arg2, "pkg/groups.CacheEntry") && K.Email == key.Email && K.AllowedGroups == key.AllowedGroups && arrof(V.ValidGroups) == arrof(data.ValidGroups) && len(V.ValidGroups) == len(data.ValidGroups)
+//@   ensures [C17] stored: called(@Store#1) && lcStored(lc.localCacheData, key.Email, key.AllowedGroups, arrof(data.ValidGroups), len(data.ValidGroups))
+//@   ensures [C17] expiry_timer_iff_ttl: lc.ttl > 0 <==> spawned() == 1
+//@   sink [C17] expiry_timer_is_for_this_key: set$1 requires $arg0.Email == key.Email && $arg0.AllowedGroups == key.AllowedGroups
+
+//@ func (lc *LocalCache) Set(key CacheKey, entry CacheEntry)
+//@   modifies nothing
+//@   ensures [C17] stored: lcStored(lc.localCacheData, key.Email, key.AllowedGroups, arrof(entry.ValidGroups), len(entry.ValidGroups))
+
+// the expiry timer purges the key it was started for
+//@ func (lc *LocalCache) set$1(key CacheKey)
+//@   modifies nothing
+//@   sink [C17] purges_its_own_key: Purge requires $arg0 == lc && $arg1.Email == key.Email && $arg1.AllowedGroups == key.AllowedGroups
+
+//@ func (lc *LocalCache) Purge(key CacheKey)
+//@   modifies nothing
+//@   ensures [C17] deletes_this_key: called(@Delete#1) && arg(@Delete#1, 0) == lc.localCacheData && typeis(arg(@Delete#1, 1), "pkg/groups.CacheKey") && unbox(arg(@Delete#1, 1), "pkg/groups.CacheKey").Email == key.Email && unbox(arg(@Delete#1, 1), "pkg/groups.CacheKey").AllowedGroups == key.AllowedGroups
